@@ -142,6 +142,10 @@ func (eng) Cases(seed uint64, tier string) []core.CaseDesc {
 	for i := 0; i < 2; i++ {
 		add(cfg{Kind: "hswindow", PushMs: []int{-1, 20}[i%2], NoSchema: i%2 == 1}, seed*101+uint64(i))
 	}
+	// the rpc2 connect event reaches the server after the client's handshake calls
+	for i := 0; i < 2; i++ {
+		add(cfg{Kind: "lateconnect", PushMs: []int{20, -1}[i%2], NoSchema: i%2 == 1}, seed*107+uint64(i))
+	}
 	// a canceled client mutation whose reply carries a local change not pushed yet
 	for i := 0; i < 4; i++ {
 		add(cfg{Kind: "cancelreply", PushMs: 500, NoSchema: i%2 == 1, Shallow: i/2 == 1}, seed*97+uint64(i))
@@ -315,7 +319,12 @@ func (eng) Run(c core.CaseDesc, tier string) *core.CaseResult {
 			}()
 		}
 	}
-	p, err := rpcloop.NewPair(src, rpcloop.Opts{PushSet: true, PushInterval: pushInt, Tune: tuneFn,
+	if cf.Kind == "lateconnect" {
+		// rpc2 hands the connect event to its subscribers asynchronously: here
+		// it arrives after the client's Hello and Handshake have been served
+		am.VerifHookSet("srv.onconnect", func() { time.Sleep(300 * time.Millisecond) })
+	}
+	p, err := rpcloop.NewPair(src, rpcloop.Opts{PushSet: true, PushInterval: pushInt, Tune: tuneFn, ClientReadyOnly: cf.Kind == "lateconnect",
 		Client: arpc.ClientOpts{NoSchema: cf.NoSchema, AllowedStates: am.S(cf.Allow), SkippedStates: am.S(cf.Skip),
 			SyncShallowClocks: cf.Shallow, SyncMutations: cf.Muts}})
 	if err != nil {
@@ -338,6 +347,9 @@ func (eng) Run(c core.CaseDesc, tier string) *core.CaseResult {
 		return res
 	case "hswindow":
 		runHsWindow(res, c, cf, r, src, p)
+		return res
+	case "lateconnect":
+		runLateConnect(res, c, cf, r, src, p)
 		return res
 	case "lisrestart":
 		runListenerRestart(res, c, cf, r, src, p)
@@ -723,6 +735,50 @@ func runHsWindow(res *core.CaseResult, c core.CaseDesc, cf cfg, r *rand.Rand, sr
 		}
 	}
 	res.Key("hswindow", cf.NoSchema, cf.PushMs)
+}
+
+// runLateConnect: the server learns about the connection (rpc2's OnConnect
+// event, delayed at hook srv.onconnect) only after it has served the client's
+// handshake. On the first connection and after a cut and reconnect the client
+// is Ready, the source changes locally and goes quiet: the mirror has to follow.
+func runLateConnect(res *core.CaseResult, c core.CaseDesc, cf cfg, r *rand.Rand, src *am.Machine, p *rpcloop.Pair) {
+	for round := 0; round < 2; round++ {
+		why := stabilize(p, cf)
+		if why != "" {
+			res.Inconclusive = why
+			return
+		}
+		if am.VerifHookHits()["srv.onconnect"] < uint64(round+1) {
+			res.Inconclusive = "hook srv.onconnect not reached"
+			return
+		}
+		time.Sleep(400 * time.Millisecond) // the delayed connect event has been delivered
+		src.Add1([]string{"B", "C"}[round], am.A{"uid": rec.NextUid()})
+		<-src.WhenQueueEnds()
+		res.Evals++
+		if why := stabilize(p, cf); why != "" {
+			res.Inconclusive = why
+			return
+		}
+		if d := compare(src, p.C, cf.Shallow); d != "" {
+			when := "the first connection"
+			if round == 1 {
+				when = "a reconnect"
+			}
+			res.Violate("C09/diverged/connect-event-after-handshake", fmt.Sprintf(
+				"on %s the server got rpc2's connect event after it had served the client's handshake; the client is Ready, the source changed locally and went quiet, "+
+					"but the mirror differs: %s (server %s)", when, d, p.S.Mach.String()),
+				map[string]any{"config": cf, "round": round, "source": src.StringAll(), "mirror": p.C.NetMach.StringAll(), "hooks": am.VerifHookHits()})
+			return
+		}
+		if round == 0 {
+			p.Proxy.Cut()
+			for i := 0; i < 3000 && p.C.Mach.Is1(ssrpc.ClientStates.Ready); i++ {
+				time.Sleep(time.Millisecond)
+			}
+		}
+	}
+	res.Key("lateconnect", cf.NoSchema, cf.PushMs)
 }
 
 // runCancelReply: the source changes locally and, before the (throttled) push
